@@ -107,8 +107,9 @@ def gen_sysworld(rng, small=False, blank_names=False):
     npr = rng.randint(1, 3 if small else 5)
     procs = ["sysenv"] + rng.sample(PROC_POOL, npr)
     if rng.chance(0.07):
-        # a process with a long descriptive name: the names of its flows agree in their first hundred characters and differ after that
-        procs[rng.randint(1, npr)] = "material recovery facility for mixed construction and demolition waste streams of the northern and western districts, line 2"
+        # a process with a long descriptive name (a good hundred characters; a self-loop's file name still fits the file system's 255):
+        # the names of its flows agree in their first hundred characters and differ after that
+        procs[rng.randint(1, npr)] = "material recovery facility for mixed construction and demolition waste of the northern and western districts 2"
     # ---- flows
     nf = rng.randint(1, 4 if small else 8)
     naming = rng.choice(list(NAMING))
